@@ -270,3 +270,38 @@ func (p *Pool) Get() any {
 	return nil
 }
 func (p *Pool) Put(any) {}
+
+func (m *Map) LoadAndDelete(k any) (any, bool) {
+	vsched.Block(vsched.OpAtomic, 0, nil)
+	v, ok := m.m[k]
+	delete(m.m, k)
+	return v, ok
+}
+
+func (m *Map) Swap(k, v any) (any, bool) {
+	vsched.Block(vsched.OpAtomic, 0, nil)
+	if m.m == nil {
+		m.m = map[any]any{}
+	}
+	old, ok := m.m[k]
+	m.m[k] = v
+	return old, ok
+}
+
+func (m *Map) CompareAndSwap(k, o, n any) bool {
+	vsched.Block(vsched.OpAtomic, 0, nil)
+	if cur, ok := m.m[k]; ok && cur == o {
+		m.m[k] = n
+		return true
+	}
+	return false
+}
+
+func (m *Map) CompareAndDelete(k, o any) bool {
+	vsched.Block(vsched.OpAtomic, 0, nil)
+	if cur, ok := m.m[k]; ok && cur == o {
+		delete(m.m, k)
+		return true
+	}
+	return false
+}
